@@ -132,6 +132,24 @@ Theorem C04_mark_zombie_bookkeeping : forall W m idx,
 Proof. exact ms_mark_zombie_spec. Qed.
 Print Assumptions C04_mark_zombie_bookkeeping.
 
+(** C04_kept_partial (the drop phase of the kept clause): once the bars concerned are finished,
+    dropping their handles - any bars, any order, any times, any terminal - makes NO TermLike
+    call at all, so whatever the finishing draws painted (C04_final_frame_member: the final
+    frames, at the members' places, in the order of the ordering) stays on the screen untouched;
+    the bookkeeping conserves (kept rows + rows the next draw would erase) and loses no orphan
+    line.  NOT proved here: that a later draw caused by dropping an UNFINISHED bar (which repaints
+    and reaps head zombies with LineAdjust::Keep) leaves the kept rows intact on the screen -
+    that needs the terminal semantics and the ordering invariants of C02/C03; it is checked on
+    the implementation by the screen oracle (harness/src/sysoracle.rs). *)
+Theorem C04_kept_partial : forall W H fails ops s,
+  Forall (fun to => exists b, snd to = ODrop b /\ finished (get_bar s b) = true) ops ->
+  snd (run W H fails s ops) = [] /\
+  s_calls (fst (run W H fails s ops)) = s_calls s /\
+  kept_plus_live (fst (run W H fails s ops)) = kept_plus_live s /\
+  ms_orphans (s_mp (fst (run W H fails s ops))) = ms_orphans (s_mp s).
+Proof. exact drops_of_finished_silent. Qed.
+Print Assumptions C04_kept_partial.
+
 (** Non-vacuity: a bar on a 1 Hz terminal whose refresh limiter is exhausted (capacity 0, last
     draw at this very instant) and whose position limiter is exhausted as well: an ordinary
     tick paints nothing, finish_with_message paints the final frame "done:7" over the old one. *)
